@@ -205,7 +205,7 @@ func (e *env) once(cs *caseRec) *result {
 		default:
 			res.Kind = "limit/" + kind
 		}
-		if res.Kind == "" && len(cs.Script.Sels) == 1 && v.SpansAgree {
+		if res.Kind == "" && (len(cs.Script.Sels) == 1 || rt.AllOr(cs.Script)) && v.SpansAgree {
 			res.SpansCmp = true
 			want := map[string][]string{}
 			for _, t := range v.Base.Traces {
@@ -687,7 +687,7 @@ type childCfg struct {
 	N    int `json:"n"`
 }
 
-const rule = "for each generated (script, database, window, limit): qryn's parser accepts the script; every SQL statement the read path issues executes in E-CHSQL without a ClickHouse error; when all readings of the property agree, the returned trace ids are a valid `limit`-cut of the traces the reference evaluator selects (and, for single selectors, each returned span set equals the matching spans)"
+const rule = "for each generated (script, database, window, limit): qryn's parser accepts the script; every SQL statement the read path issues executes in E-CHSQL without a ClickHouse error; when all readings of the property agree, the returned trace ids are a valid `limit`-cut of the traces the reference evaluator selects (and, for single selectors and chains of || only, each returned span set equals the spans matched by the selector(s))"
 
 func Main(c *run.Ctx) {
 	c.SetRule(rule)
@@ -695,7 +695,7 @@ func Main(c *run.Ctx) {
 	c.Assume("tables are filled as the writer fills them: one tempo_traces row per span, one tempo_traces_attrs_gin row per (span, key) with `name` and `service.name` always present, one value per key per span")
 	c.Assume("the reader process runs in UTC (the planner formats the date bounds in the process-local zone; zones are C13's subject)")
 	c.Assume("ambiguity policy (Appendix E): regex anchoring, label scope, number-vs-text equality, numeric text grammar, association of mixed &&/|| and aggregates over no value are readings; a case is judged only if all readings agree")
-	n := c.Pick(400, 20000)
+	n := c.Pick(2400, 40000)
 	total := &stats{Shapes: map[string]int{}}
 	if c.Quick() {
 		total.add(runBatch(c, 0, n))
